@@ -11,6 +11,8 @@ import (
 
 	"github.com/ipfs/go-cid"
 	unixfsnode "github.com/ipfs/go-unixfsnode"
+	"github.com/ipfs/go-unixfsnode/iter"
+	dagpb "github.com/ipld/go-codec-dagpb"
 	"github.com/ipld/go-ipld-prime/datamodel"
 	"github.com/ipld/go-ipld-prime/linking"
 	cidlink "github.com/ipld/go-ipld-prime/linking/cid"
@@ -94,6 +96,38 @@ func c17RunOp(n datamodel.Node, op c17op, y func()) string {
 		return "link:" + l.String()
 	case "length":
 		return fmt.Sprintf("len:%d", n.Length())
+	case "lookup-native":
+		nl, ok := n.(interface {
+			Lookup(dagpb.String) dagpb.Link
+		})
+		if !ok {
+			return "err:no-native-lookup"
+		}
+		nb := dagpb.Type.String.NewBuilder()
+		_ = nb.AssignString(op.arg)
+		l := nl.Lookup(nb.Build().(dagpb.String))
+		if l == nil {
+			return "native:nil"
+		}
+		return "native:" + l.Link().String()
+	case "iterate-native":
+		ni, ok := n.(interface{ Iterator() *iter.UnixFSDir__Itr })
+		if !ok {
+			return "err:no-native-iterator"
+		}
+		it := ni.Iterator()
+		var items []string
+		for steps := 0; !it.Done() && steps < 100000; steps++ {
+			k, v := it.Next()
+			if k == nil || v == nil {
+				items = append(items, "<nil>")
+				continue
+			}
+			items = append(items, k.String()+"="+v.Link().String())
+		}
+		sort.Strings(items)
+		h := sha256.Sum256([]byte(strings.Join(items, "\n")))
+		return fmt.Sprintf("niter:%d:%x", len(items), h[:8])
 	case "iterate":
 		it := n.MapIterator()
 		var items []string
@@ -228,8 +262,14 @@ func (c17) Run(ts *tape.Set, tier Tier) *Result {
 					op = c17op{kind: "lookup", arg: hotName}
 				case k < 6:
 					op = c17op{kind: "lookup", arg: fmt.Sprintf("absent%d", b%50)}
-				case k < 8:
+				case k < 7:
 					op = c17op{kind: "iterate"}
+				case k < 8:
+					if b%2 == 0 {
+						op = c17op{kind: "iterate-native"}
+					} else {
+						op = c17op{kind: "lookup-native", arg: names[int(a%uint64(len(names)))]}
+					}
 				default:
 					op = c17op{kind: "length"}
 				}
